@@ -232,6 +232,12 @@ def run(cx):
     removal_implies_fin(cx, "C17.e")
     from props.shared import heap_order
     heap_order(cx, "C17.f", ["event"])
+    # capacity comes back when connections end by timeout: the timers run on a clock that does not restart
+    from props.shared import clock_exact
+    clock_exact(cx, "C17.k")
+    # ... and a dead peer's deadline is now + active_timeout at every refresh (a deadline that accumulates keeps the slot)
+    from props.C10 import deadline_rule
+    deadline_rule(cx, "C17.l")
     from props.shared import active_timeout_sweep
     active_timeout_sweep(cx, "C17.g")
     from props.shared import config_verbatim
